@@ -8,12 +8,19 @@
  * (the list `ipme` is filled directly).
  *
  * usage: c08_session <alen> <slenA> <slenB> <nrandom> <seed> <shard> <nshards>
- *        c08_session -          cases on stdin:  "S <cfg> <chunk> <hex>"  |  "A <cfg> <hex>"
+ *        c08_session -          cases on stdin:  "S <cfg> <chunk> <hex>"  |  "A <cfg> <hex>"  |  "F <table> <bufsize> <script> <hex>"
  * output:
+ *   B <sizeof ssinbuf>                                  once, first line
+ *   F <table> <texts,...> <bufsize> <script> <in> <ret> <ncalls> {<index> <arg>}
+ *        commands() (commands.c) called directly on a substdio of size <bufsize> whose read() calls follow <script> (one byte
+ *        per call: the most it may return; 00 = fails with EIO; exhausted = as much as asked), with a table of recording
+ *        handlers: table 0 carries the texts of the real smtpcommands[], table 1 a synthetic one (shadowed entry, empty text,
+ *        text with a blank, the characters next to the letter ranges)
+ *   S lines end with  D <ncalls> {<index> <arg>} : the calls commands() made into smtpcommands[] during the session
  *   C <cfg> <me> <rcpthosts> <morercpthosts> <badmailfrom> <localiphost> <RELAYCLIENT> <ipme> <qqmode> <now> <qp>
  *        (hex; "!" = absent)  — emitted whenever the configuration changes; later lines refer to it
  *   A <cfg> <arg> <ok> <addr> <bmf> <allowed>          one addrparse() call (+ bmfcheck(), addrallowed() if ok)
- *   S <cfg> <chunk> <in> <exit> <replies> <nsub> {<from> <rcptto>}   one whole session
+ *   S <cfg> <chunk> <in> <exit> <replies> <nsub> {<from> <rcptto>} D <ncalls> {<index> <arg>}   one whole session
  * configuration numbers (a configuration is a function of its number alone, so replay lines stay meaningful):
  *   0..NFIXED-1 the fixed table; NFIXED..NFIXED+399 generated from a small domain list; LBASE+i (1000..1055) the "letter"
  *   configuration written with the single character i of A..Z a..z @ [ ` { ; ABASE+k (2000..) entries over the whole
@@ -77,6 +84,32 @@ char *qmail_close(struct qmail *qq) {
   return qq_mode == 2 ? "Dqq permanent problem (#5.3.0)" : qq_mode == 3 ? "Zqq temporary problem (#4.3.0)" : "";
 }
 unsigned long qmail_qp(struct qmail *qq) { return H_QP; }
+
+/* ---------------------------------------------------------------- the calls commands() makes */
+#define MAXTAB 24
+static hbuf callb; static int ncalls;            /* per call: index byte, argument, NUL */
+static void rec_call(int i, const char *arg) { unsigned char ix = (unsigned char)i; hadd(&callb, &ix, 1); hadd(&callb, arg, strlen(arg) + 1); ncalls++; }
+static void (*orig_fun[MAXTAB])();
+#define W(i) static void rec_##i(char *arg) { rec_call(i, arg); if (orig_fun[i]) orig_fun[i](arg); }
+W(0) W(1) W(2) W(3) W(4) W(5) W(6) W(7) W(8) W(9) W(10) W(11) W(12) W(13) W(14) W(15) W(16) W(17) W(18) W(19) W(20) W(21) W(22) W(23)
+static void (*const rec_fun[MAXTAB])(char *) = { rec_0, rec_1, rec_2, rec_3, rec_4, rec_5, rec_6, rec_7, rec_8, rec_9, rec_10, rec_11, rec_12,
+  rec_13, rec_14, rec_15, rec_16, rec_17, rec_18, rec_19, rec_20, rec_21, rec_22, rec_23 };
+static int nsmtp;                                  /* entries of smtpcommands[] before the terminating one */
+/* route every entry of the real smtpcommands[] through a recorder that then calls the real handler */
+static void hook_smtpcommands(void) {
+  int n = 0; while (smtpcommands[n].text) n++;
+  if (n + 1 > MAXTAB) { fprintf(stderr, "smtpcommands[] has more than %d entries\n", MAXTAB - 1); exit(99); }
+  nsmtp = n;
+  for (int i = 0; i <= n; i++) { orig_fun[i] = smtpcommands[i].fun; smtpcommands[i].fun = rec_fun[i]; }
+}
+static void put_calls(void) {
+  fprintf(h_out, " %d", ncalls);
+  for (size_t i = 0; i < callb.n; ) {
+    size_t l = strlen((char *)callb.p + i + 1);
+    fprintf(h_out, " %d ", (int)callb.p[i]); h_hex(callb.p + i + 1, l);
+    i += l + 2;
+  }
+}
 
 /* ---------------------------------------------------------------- configurations */
 enum { F_RH, F_MORE, F_BMF, F_LIP, F_RELAY, NF };
@@ -299,7 +332,7 @@ static int run_main(const unsigned char *in, size_t n, int chunk) {
   seenmail = 0; flagbarf = 0; rcptto.len = 0; mailfrom.len = 0; addr.len = 0; bytestooverflow = 0; qqt.flagerr = 0;
   databytes = 0; timeout = 1200; in_env = 0; nsub = 0;
   in_p = in; in_n = n; in_pos = 0; in_chunk = chunk;
-  hbuf_reset(&replyb);
+  hbuf_reset(&replyb); hbuf_reset(&callb); ncalls = 0;
   ipmeok = 1;
   int code = -1;
   h_exit_armed = 1;
@@ -316,6 +349,48 @@ static void s_case(int cfg, int chunk, const unsigned char *in, size_t n) {
   fprintf(h_out, " %d ", code); h_hex(replyb.p, replyb.n);
   fprintf(h_out, " %d", nsub);
   for (int i = 0; i < nsub; i++) { fputc(' ', h_out); h_hex(sub_from[i].p, sub_from[i].n); fputc(' ', h_out); h_hex(sub_rcpt[i].p, sub_rcpt[i].n); }
+  fputs(" D", h_out); put_calls();
+  fputc('\n', h_out);
+}
+
+/* ---------------------------------------------------------------- (F) commands() called directly */
+static const unsigned char *f_in; static size_t f_n, f_pos; static const unsigned char *f_script; static size_t f_ns, f_si;
+static ssize_t f_read(int fd, void *buf, size_t len) {
+  size_t k = f_n - f_pos;
+  if (f_si < f_ns) { unsigned c = f_script[f_si++]; if (c == 0) { errno = EIO; return -1; } if (k > c) k = c; }
+  if (k > len) k = len;
+  if (k) memcpy(buf, f_in + f_pos, k);
+  f_pos += k;
+  return (ssize_t)k;
+}
+static const char *synth_texts[] = { "a", "AB", "ab", "", "x y", "Quit", "top", "Z", "z{", "@", "[a", "mail", 0 };
+static struct commands f_table[MAXTAB + 1]; static int f_nt;
+static void f_use_table(int tbl) {
+  f_nt = 0;
+  if (tbl == 0) { for (int i = 0; i < nsmtp; i++) f_table[f_nt++].text = smtpcommands[i].text; }
+  else for (int i = 0; synth_texts[i]; i++) f_table[f_nt++].text = (char *)synth_texts[i];
+  f_table[f_nt].text = 0;
+  for (int i = 0; i <= f_nt; i++) { f_table[i].fun = rec_fun[i]; f_table[i].flush = 0; }
+}
+static void f_case(int tbl, int bufsize, const unsigned char *script, size_t ns, const unsigned char *in, size_t n) {
+  static char fbuf[70000]; substdio fss; void (*save[MAXTAB])();
+  if (bufsize < 1) bufsize = 1;
+  if (bufsize > (int)sizeof fbuf) bufsize = sizeof fbuf;
+  tbl = tbl ? 1 : 0;
+  f_use_table(tbl);
+  memcpy(save, orig_fun, sizeof save); memset(orig_fun, 0, sizeof orig_fun);     /* recorders only */
+  f_in = in; f_n = n; f_pos = 0; f_script = script; f_ns = ns; f_si = 0;
+  substdio_fdbuf(&fss, f_read, 0, fbuf, bufsize);
+  hbuf_reset(&callb); ncalls = 0;
+  int ret = 99;
+  h_exit_armed = 1;
+  if (setjmp(h_jb) == 0) ret = commands(&fss, f_table);
+  h_exit_armed = 0;
+  memcpy(orig_fun, save, sizeof save);
+  fprintf(h_out, "F %d ", tbl);
+  for (int i = 0; i < f_nt; i++) { if (i) fputc(',', h_out); h_hex((const unsigned char *)f_table[i].text, strlen(f_table[i].text)); }
+  fprintf(h_out, " %d ", bufsize); h_hex(script, ns); fputc(' ', h_out); h_hex(in, n);
+  fprintf(h_out, " %d", ret); put_calls();
   fputc('\n', h_out);
 }
 
@@ -575,6 +650,86 @@ static void alpha_round(void) {
   s_case(cfg, (int[]){ 0, 0, 1, 3, 64, 1000 }[h_below(6)], b.p, b.n);
 }
 
+/* ---- (F) byte streams for commands(): lines built from table texts (re-cased, characters swapped with their bit-5 partners,
+ * truncated / extended), blanks before / between / after, arguments with NUL, CR, TAB and 8-bit bytes, LF / CRLF / CRCRLF / CR-in-
+ * the-middle line ends, very long lines, an unterminated last line; buffer sizes 1..1024, read scripts with short reads and a
+ * failing read */
+static void f_random(void) {
+  static hbuf b; unsigned char script[64]; size_t ns = 0;
+  int tbl = (int)h_below(2);
+  f_use_table(tbl);
+  hbuf_reset(&b);
+  int nl = (int)h_below(h_below(4) ? 6 : 14);
+  for (int i = 0; i < nl; i++) {
+    int lead = h_below(6) == 0 ? 1 + (int)h_below(2) : 0;
+    for (int j = 0; j < lead; j++) hadd(&b, " ", 1);
+    { char v[40]; size_t m = 0;
+      switch (h_below(8)) {
+        case 0: m = (size_t)sprintf(v, "%s", "xyzzy"); break;
+        case 1: m = 0; break;
+        default: { const char *t = f_table[h_below((uint32_t)f_nt)].text; m = strlen(t); memcpy(v, t, m); }
+      }
+      flipcase(v, m, rnd_flipmode());
+      if (m && h_below(10) == 0) { size_t pos = h_below((uint32_t)m); v[pos] ^= 32; }                 /* bit-5 partner, letter or not */
+      if (m && h_below(12) == 0) m--;                                                                    /* one byte short */
+      if (h_below(12) == 0) v[m++] = "aZ{@ \t"[h_below(6)];                                              /* one byte too many */
+      hadd(&b, v, m); }
+    if (h_below(4)) {
+      int sp = h_below(5) ? 1 : (int)h_below(4);
+      for (int j = 0; j < sp; j++) hadd(&b, " ", 1);
+      if (sp == 0 && h_below(2)) hadd(&b, "\t", 1);
+      if (h_below(40) == 0) { int L = 1000 + (int)h_below(h_below(4) ? 3000 : 66000); for (int j = 0; j < L; j++) hadd(&b, j % 97 ? "x" : " ", 1); }
+      else { static const char argal[] = "FROM:<a@b> to \0\r\t\x80\xff\"\\xY  ";
+             int L = (int)h_below(12); for (int j = 0; j < L; j++) { char ch = argal[h_below(sizeof argal - 1)]; hadd(&b, &ch, 1); } }
+      for (int j = (int)h_below(6) ? 0 : 1 + (int)h_below(2); j > 0; j--) hadd(&b, " ", 1);
+    }
+    switch (h_below(10)) { case 0: hadd(&b, "\n", 1); break; case 1: hadd(&b, "\r\r\n", 3); break; case 2: hadd(&b, "\r \n", 3); break;
+      case 3: hadd(&b, "\0\n", 2); break; case 4: hadd(&b, "\r\0\r\n", 4); break; default: hadd(&b, "\r\n", 2); }
+  }
+  if (h_below(4) == 0) hadd(&b, "quit\r", h_below(6));                                                   /* unterminated tail */
+  int bufsize = (int[]){ 1, 1, 2, 3, 7, 16, 64, 1024 }[h_below(8)];
+  switch (h_below(4)) {
+    case 0: ns = 0; break;
+    case 1: ns = 1 + h_below(60); for (size_t j = 0; j < ns; j++) script[j] = (unsigned char)(1 + h_below(h_below(3) ? 4 : 200)); break;
+    case 2: ns = 63; for (size_t j = 0; j < ns; j++) script[j] = 1; break;
+    default: ns = 1 + h_below(40); for (size_t j = 0; j < ns; j++) script[j] = (unsigned char)(1 + h_below(9)); script[h_below((uint32_t)ns)] = 0; break;
+  }
+  f_case(tbl, bufsize, script, ns, b.p, b.n);
+}
+
+static void f_legs(int flen, int nrandom) {
+  /* (F1) every stream over { a B space CR LF NUL } under the synthetic table, buffer size / read size rotating */
+  static const unsigned char al[6] = { 'a', 'B', ' ', '\r', '\n', 0 }; unsigned char w[16];
+  static const unsigned char one[40] = { 1,1,1,1,1,1,1,1,1,1,1,1,1,1,1,1,1,1,1,1,1,1,1,1,1,1,1,1,1,1,1,1,1,1,1,1,1,1,1,1 };
+  static const unsigned char two[4] = { 2, 1, 3, 2 };
+  for (int len = 0; len <= flen && len <= 12; len++) {
+    uint64_t total = 1; for (int q = 0; q < len; q++) total *= 6;
+    for (uint64_t k = 0; k < total; k++) {
+      if (!MINE()) continue;
+      uint64_t v = k; for (int q = 0; q < len; q++) { w[q] = al[v % 6]; v /= 6; }
+      switch (k % 4) {
+        case 0: f_case(1, 1024, 0, 0, w, (size_t)len); break;
+        case 1: f_case(1, 1, 0, 0, w, (size_t)len); break;
+        case 2: f_case(1, 2, one, sizeof one, w, (size_t)len); break;
+        default: f_case(1, 3, two, sizeof two, w, (size_t)len); break;
+      }
+    }
+  }
+  /* (F2) fixed streams under the real smtpcommands[] texts */
+  {
+#define FX(s) { s, sizeof s - 1 }
+    static const struct { const char *p; size_t n; } fx[] = {
+      FX("MAIL FROM:<a@b>\r\nrcpt to:<c@d>\nDaTa\r\nquit\r\n"),
+      FX("HELO\r\r\nEHLO  x \r\n NOOP\r\n\r\n\nRSET\0junk\r\nVRFY\ta\r\nHELP me\r\nquit"),
+      FX("MAILFROM:<a>\r\nMAI\r\nmailx y\r\nM@IL z\r\nmAIL\0 z\r\nMAIL\r z\r\n`UIT\r\nQUIT\r") };
+    for (int i = 0; i < 3; i++) for (int bs = 0; bs < 3; bs++) {
+      if (!MINE()) continue;
+      f_case(0, (int[]){ 1024, 1, 5 }[bs], one, bs == 2 ? sizeof one : 0, (const unsigned char *)fx[i].p, fx[i].n);
+    } }
+  /* (F3) seeded */
+  for (int r = 0; r < nrandom; r++) { if ((r % nshards) != shard) continue; f_random(); }
+}
+
 static int unhex(const char *h, unsigned char *o) {
   int n = 0;
   if (h[0] == '-') return 0;
@@ -593,6 +748,8 @@ int main(int argc, char **argv) {
   ipme.len = 0;
   for (int i = 0; i < NIPME; i++) { struct ip_mx ix; ix.pref = 0; memcpy(&ix.ip, IPME[i], 4); ipalloc_append(&ipme, &ix); }
   ipmeok = 1;
+  hook_smtpcommands();
+  fprintf(h_out, "B %d\n", (int)sizeof ssinbuf);
   int rc = 0;
   if (argc > 1 && !strcmp(argv[1], "-")) {
     static char line[600000], hx[600000]; static unsigned char b[300000];
@@ -600,6 +757,8 @@ int main(int argc, char **argv) {
       int cfg, chunk;
       if (sscanf(line, "S %d %d %s", &cfg, &chunk, hx) == 3) s_case(cfg, chunk, b, unhex(hx, b));
       else if (sscanf(line, "A %d %s", &cfg, hx) == 2) a_case(cfg, b, unhex(hx, b));
+      else { static char sx[4000]; static unsigned char sc[2000]; int tbl, bs;
+        if (sscanf(line, "F %d %d %3999s %s", &tbl, &bs, sx, hx) == 4) { int ns = unhex(sx, sc); f_case(tbl, bs, sc, (size_t)ns, b, unhex(hx, b)); } }
     }
     goto done;
   }
@@ -654,6 +813,8 @@ int main(int argc, char **argv) {
     if ((r % nshards) != shard) continue;
     alpha_round();
   }
+  /* (F) commands() called directly: framing of the byte stream into calls */
+  f_legs(alen + 1, nrandom);
   }
 done:
   fflush(h_out);
